@@ -106,3 +106,50 @@ def run(facts, rep):
         rep.ok('E16.S3-mul-shortcuts', inst, ', '.join(sorted(arms)))
     else:
         rep.violation('E16.S3-mul-shortcuts', inst, 'PolyBase::mul_assign has arms %s; expected %s' % (sorted(arms), sorted(want)), where=m.where())
+
+
+def check_sub_negates(facts, rep):
+    """S4 (C16, additive group of Lc / polynomials): `a -= b` adds the *negated* coefficients of b. In SubAssign<&Lc> every
+    call that writes into self (or self.data) with data derived from rhs passes the coefficient through `neg` (or is a
+    coefficient-level sub_assign); a whole-container copy of rhs.data, correct for +=, is not. Every polynomial type and
+    every by-value / by-reference variant delegates to this one body (OPV), so the slip would make 0 - g = g everywhere."""
+    import re
+    from symex import SymEx, show, subterms
+    fn = [b for k, b in facts.bodies.items() if k.endswith('::sub_assign') and 'types::lc::lc::Lc<X, R> as std::ops::SubAssign<&types::lc::lc::Lc<X, R>>' in k]
+    if len(fn) != 1:
+        rep.indet('E16.S4: Lc SubAssign<&Lc> not found (%d)' % len(fn))
+        return
+    b = fn[0]
+    rep.saw(b)
+
+    def dk(t):
+        return re.sub(r'&mut _\d+', 'IT', re.sub(r'#\d+\.\d+', '', show(t, -1000)))
+    n = 0
+    probs = []
+    for p in SymEx(b, havoc_loops=True, max_paths=5000).run():
+        rhs_iter = any(e.name.endswith('into_iter') and e.args and 'arg2' in dk(e.args[0]) for e in p.calls())
+        for e in p.calls():
+            if not e.args:
+                continue
+            a0 = dk(e.args[0])
+            if not (a0.startswith('IT') or '*arg1' in a0) or not (e.args[0][0] == 'mref' or a0.startswith('&mut')):
+                continue
+            if '*arg1' not in a0:
+                continue
+            rest = [dk(x) for x in e.args[1:]]
+            from_rhs = [r for r in rest if 'arg2' in r or (rhs_iter and 'next(IT)' in r)]
+            if not from_rhs:
+                continue
+            n += 1
+            name = e.name.split('::')[-1]
+            joined = ' '.join(rest)
+            if name in ('sub_assign', 'sub') or 'neg(' in joined:
+                continue
+            probs.append('%s(%s) moves data of rhs into self without negating the coefficients' % (name, ', '.join(r[:50] for r in rest)))
+    inst = 'Lc -=|every coefficient taken from rhs is negated'
+    if n == 0:
+        rep.indet('E16.S4: no transfer from rhs into self found in Lc::sub_assign')
+    elif probs:
+        rep.violation('E16.S4-sub-negates', inst, 'Lc::sub_assign: ' + '; '.join(sorted(set(probs))[:2]) + ' (0 - g = g)', where=b.where())
+    else:
+        rep.ok('E16.S4-sub-negates', inst, '%d transfer site(s), all through neg' % n)
